@@ -220,6 +220,29 @@ func codecExec(ops []string) (dops []string, res []string) {
 			level, _ := strconv.Atoi(t[2])
 			es := parseCEs(t[3])
 			idx, file := table.Build(es, bs, level)
+			// the image Build returned must stay what it is while later encoder / decoder / wal calls reuse pooled buffers
+			orig := bytes.Clone(file)
+			{
+				other := parseCEs(t[3])
+				for i := 0; i < 3; i++ {
+					d := table.Data{Entries: other}
+					_, _ = d.Encode()
+					table.Build(other, 1+i*7, 0)
+					var ix table.Index
+					_ = ix
+				}
+				if w, err := wal.Create(dir); err == nil {
+					_ = w.Write(other...)
+					_, _ = w.Read()
+					w.Delete()
+				}
+			}
+			if bytes.Equal(file, orig) {
+				add("intact table-image", "intact")
+			} else {
+				add("intact table-image", "CHANGED: the bytes returned by table.Build were overwritten by later encoder calls")
+				file = orig
+			}
 			// created time: read it back from the meta block (time.Now inside Build)
 			var ft table.Footer
 			if err := ft.Decode(file[len(file)-40:]); err != nil {
